@@ -255,6 +255,181 @@ pub fn planted_key<V: Fv>(vseed: u64, i: usize) -> Option<(V::Sk, V::Pk)> {
     Some((sk, pk))
 }
 
+/// COMPLETE planted candidates: the scripted generator dictates every sample of the first
+/// candidate (f', g) and of the second one (f, g), where (f, g) belongs to a valid key and f'
+/// differs from f in two coefficients so that f' VANISHES at one chosen slot of the crate's
+/// NTT (f' is not invertible modulo q, in exactly one slot). A correct generator discards the
+/// first candidate and returns the key of the second; the slots include the first and last few.
+fn vanishing_candidates<V: Fv>(ctx: &Ctx, rep: &mut Report) {
+    use falcon_rust::verif_hooks as vh;
+    use rand::Rng;
+    let n = V::N;
+    let q = Q;
+    let (keys, _bad) = crate::pool::keys::<V>(ctx.seed, "c04-vanish", 2);
+    if keys.is_empty() {
+        return;
+    }
+    let mut rng = crate::util::rng_for(ctx.seed, "c04-vanish-bytes");
+    let mut bytes: Vec<[u8; 9]> = vec![];
+    for want in 0..=5i16 {
+        let mut tries = 0u64;
+        loop {
+            let b: [u8; 9] = rng.gen();
+            if vh::sampler::base_sampler(b) == want {
+                bytes.push(b);
+                break;
+            }
+            tries += 1;
+            if tries > 50_000_000 {
+                rep.inconclusive("no base-sampler bytes found for a small z0".into());
+                return;
+            }
+        }
+    }
+    // evaluation points of the crate's transform, in its slot order
+    let mut xm = vec![0i16; n];
+    xm[1] = 1;
+    let roots: Vec<i64> = match monitored(|| vh::ntt(&xm)) {
+        Ok(v) => v.iter().map(|&x| x as i64).collect(),
+        Err(_) => return,
+    };
+    let (w, _) = spec::sk_widths(n);
+    let lim = (1i64 << (w - 1)) - 1;
+    let per = 4096 / n;
+    let mut slots: Vec<usize> = vec![0, 1, 2, n / 2 - 1, n / 2, n - 3, n - 2, n - 1];
+    for _ in 0..ctx.sz(8, 120) {
+        slots.push(rng.gen_range(0..n));
+    }
+    let jobs: Vec<(usize, usize)> = slots.iter().enumerate().map(|(i, &s)| (i % keys.len(), s)).collect();
+    let r = par_for(jobs.len(), ncpu(), |ji, rep| {
+        let (ki, slot) = jobs[ji];
+        let k = &keys[ki];
+        let b0 = V::basis(&k.sk);
+        let g: Vec<i64> = b0[0].iter().map(|&x| x as i64).collect();
+        let f: Vec<i64> = b0[1].iter().map(|&x| -(x as i64)).collect();
+        let r = roots[slot];
+        // powers of r and the value f(r)
+        let mut pw = Vec::with_capacity(n);
+        let mut p = 1i64;
+        for _ in 0..n {
+            pw.push(p);
+            p = p * r % q;
+        }
+        let idx: std::collections::HashMap<i64, usize> = pw.iter().enumerate().map(|(i, &v)| (v, i)).collect();
+        let v = (0..n).fold(0i64, |a, i| (a + spec::modq(f[i]) * pw[i]) % q);
+        // f' = f + da x^a + db x^b with f'(r) = 0, small deltas, coefficients in range
+        let mut best: Option<(i64, usize, i64, usize, i64)> = None;
+        for a in 0..n {
+            for da in [-2i64, -1, 1, 2] {
+                if (f[a] + da).abs() > lim {
+                    continue;
+                }
+                let need = spec::modq(-v - da * pw[a]);
+                for db in [-2i64, -1, 1, 2] {
+                    let t = need * spec::powm(spec::modq(db), q - 2) % q;
+                    if let Some(&b) = idx.get(&t) {
+                        if b != a && (f[b] + db).abs() <= lim {
+                            // change of the squared norm
+                            let cost = (f[a] + da).pow(2) - f[a].pow(2) + (f[b] + db).pow(2) - f[b].pow(2);
+                            if best.map(|x| cost < x.0).unwrap_or(true) {
+                                best = Some((cost, a, da, b, db));
+                            }
+                        }
+                    }
+                }
+            }
+        }
+        let (_, a, da, b, db) = match best {
+            Some(x) => x,
+            None => return,
+        };
+        let mut f2 = f.clone();
+        f2[a] += da;
+        f2[b] += db;
+        // harness-side sanity: f2 vanishes at that slot and nowhere else
+        let f2i: Vec<i16> = f2.iter().map(|&x| x as i16).collect();
+        let zeros: Vec<usize> = match monitored(|| vh::ntt(&f2i)) {
+            Ok(t) => t.iter().enumerate().filter(|(_, &x)| x == 0).map(|(i, _)| i).collect(),
+            Err(_) => return,
+        };
+        if zeros != vec![slot] {
+            rep.count("vanishing_candidate_construction_skipped", 1);
+            return;
+        }
+        // samples: each coefficient split over `per` samples of magnitude <= 5
+        let mut values: Vec<i16> = vec![];
+        let mut push_poly = |p: &Vec<i64>| {
+            for &c in p.iter() {
+                let mut rest = c;
+                for s_ in 0..per {
+                    let left = (per - s_) as i64;
+                    let part = if rest >= 0 { (rest + left - 1) / left } else { -((-rest + left - 1) / left) };
+                    values.push(part as i16);
+                    rest -= part;
+                }
+            }
+        };
+        push_poly(&f2);
+        push_poly(&g);
+        push_poly(&f);
+        push_poly(&g);
+        if values.iter().any(|v| v.abs() > 5) {
+            rep.count("vanishing_candidate_construction_skipped", 1);
+            return;
+        }
+        let strat = crate::gen::Strategy::ScriptSamples { values, bytes: bytes.clone() };
+        let label = format!("c04-vanish-{}-{}", V::NAME, ji);
+        let mut srng = crate::gen::ScriptedRng::new(ctx.seed, &label, strat, 400_000_000);
+        vh::take_keygen_candidates();
+        let out = monitored(move || {
+            let (fo, go, cfo, _cg) = falcon_rust::math::ntru_gen(n, &mut srng);
+            (fo.coefficients, go.coefficients, cfo.coefficients)
+        });
+        let cands = vh::take_keygen_candidates();
+        rep.evaluations += 1;
+        let replay = || json!({"variant": V::NAME, "kind": "vanishing-candidate", "slot": slot, "vseed": ctx.seed, "label": label});
+        match out {
+            Err(p) if p.no_progress => rep.inconclusive("ntru_gen did not return within the randomness budget under a scripted candidate".into()),
+            Err(p) => rep.violation(&format!("panic:ntru_gen@{}", short_loc(&p.location)), format!("{} ntru_gen panicked on a scripted candidate whose f vanishes at NTT slot {}: {}", V::NAME, slot, p.message), replay()),
+            Ok((fo, go, cfo)) => {
+                let to64 = |v: &Vec<i16>| v.iter().map(|&x| x as i64).collect::<Vec<i64>>();
+                if to64(&fo).iter().chain(to64(&go).iter()).any(|x| x.abs() > lim) || to64(&cfo).iter().any(|x| x.abs() > 127) {
+                    rep.count("planted_runs_with_unrepresentable_result", 1);
+                    return;
+                }
+                let bytes_sk = spec::sk_encode(&to64(&fo), &to64(&go), &to64(&cfo));
+                match monitored(|| V::sk_from_bytes(&bytes_sk)) {
+                    Ok(Ok(sk)) => {
+                        let pk = V::pk_from_sk(&sk);
+                        let rp = || json!({"variant": V::NAME, "generated_sk": hex(&bytes_sk), "kind": "vanishing-candidate", "slot": slot});
+                        check_parts::<V>(&sk, &pk, &bytes_sk[1..33], false, &rp, rep);
+                    }
+                    Ok(Err(_)) => {
+                        // a key whose f is not invertible cannot be imported (G is recomputed by a
+                        // division by f): the generator returned an unusable key
+                        if spec::ring_inverse(&to64(&fo)).is_none() {
+                            rep.violation("key:f-not-invertible", format!("{}: ntru_gen returned a key whose f vanishes at NTT slot {} (not invertible modulo q)", V::NAME, slot), replay());
+                        } else {
+                            rep.count("planted_runs_with_undecodable_result", 1);
+                        }
+                    }
+                    Err(p) => rep.violation(&format!("panic:sk_from_bytes@{}", short_loc(&p.location)), p.message.clone(), replay()),
+                }
+                rep.count("vanishing_candidate_runs", 1);
+                if to64(&fo) == f {
+                    rep.count("vanishing_candidate_discarded_second_candidate_used", 1);
+                }
+                if slot < 3 || slot >= n - 3 {
+                    rep.count("vanishing_candidates_at_boundary_slots", 1);
+                }
+                let _ = cands;
+            }
+        }
+        rep.nontrivial(format!("vanish|{}|{}", V::NAME, slot).as_bytes());
+    });
+    rep.merge(r);
+}
+
 fn steered_candidates<V: Fv>(ctx: &Ctx, runs: usize, rep: &mut Report) {
     use falcon_rust::verif_hooks as vh;
     use rand::Rng;
@@ -356,6 +531,10 @@ pub fn keys(ctx: &Ctx, rep: &mut Report) {
     });
     rep.merge(r);
     histories(ctx, rep);
+    vanishing_candidates::<F512>(ctx, rep);
+    vanishing_candidates::<F1024>(ctx, rep);
+    rep.require("vanishing_candidate_runs", 16);
+    rep.require("vanishing_candidates_at_boundary_slots", 8);
     steered_candidates::<F1024>(ctx, ctx.sz(64, 1200), rep);
     steered_candidates::<F512>(ctx, ctx.sz(32, 600), rep);
     rep.require("planted_candidate_runs", 40);
